@@ -1,8 +1,367 @@
 package main
 
-import "fmt"
+// Direct property oracles: the property is evaluated on the real
+// library without the Coq model. Output:
+//   FAIL\t<key>\t<case>\t<detail>   a failing input (key names the class)
+//   STAT\t<name>\t<json>            coverage facts for the evidence file
+
+import (
+	"encoding/json"
+	"fmt"
+	"os"
+	"sort"
+	"strconv"
+	"sync"
+
+	"github.com/gregoryv/mq"
+)
+
+type report struct {
+	mu      sync.Mutex
+	fails   int
+	evals   int
+	nontriv map[string]struct{}
+	ntCount int
+	samples []interface{}
+	dist    map[string]int
+}
+
+func newReport() *report {
+	return &report{nontriv: map[string]struct{}{}, dist: map[string]int{}}
+}
+
+func (r *report) fail(key, c, detail string) {
+	r.mu.Lock()
+	defer r.mu.Unlock()
+	r.fails++
+	if r.fails <= 40 {
+		if len(c) > 4000 {
+			c = c[:4000] + "..."
+		}
+		fmt.Printf("FAIL\t%s\t%s\t%s\n", key, c, detail)
+	}
+}
+
+// eval counts one evaluated case; if nontrivial, it is counted once per distinct id.
+func (r *report) eval(class string, nontrivial bool, id string) {
+	r.mu.Lock()
+	defer r.mu.Unlock()
+	r.evals++
+	r.dist[class]++
+	if nontrivial {
+		if len(r.nontriv) < 2000000 {
+			if _, ok := r.nontriv[id]; !ok {
+				r.nontriv[id] = struct{}{}
+				r.ntCount++
+			}
+		}
+	}
+}
+
+// evalN counts n distinct non-trivial cases that are distinct by construction (exhaustive sweeps).
+func (r *report) evalN(class string, n, nontrivial int) {
+	r.mu.Lock()
+	defer r.mu.Unlock()
+	r.evals += n
+	r.dist[class] += n
+	r.ntCount += nontrivial
+}
+
+func (r *report) sample(v interface{}) {
+	r.mu.Lock()
+	defer r.mu.Unlock()
+	if len(r.samples) < 6 {
+		r.samples = append(r.samples, v)
+	}
+}
+
+func (r *report) finish() int {
+	stat("evaluations", r.evals)
+	stat("distinct_nontrivial", r.ntCount)
+	stat("distribution", r.dist)
+	stat("samples", r.samples)
+	stat("failures", r.fails)
+	if r.fails > 0 {
+		return 1
+	}
+	return 0
+}
+
+func stat(name string, v interface{}) {
+	b, _ := json.Marshal(v)
+	fmt.Printf("STAT\t%s\t%s\n", name, b)
+}
 
 func oracle(prop string, seed int64, n int, args []string) int {
-	fmt.Println("no oracle for", prop)
-	return 2
+	r := newReport()
+	single := ""
+	for i := 0; i+1 < len(args); i++ {
+		if args[i] == "--case" {
+			single = args[i+1]
+		}
+	}
+	f, ok := oracles[prop]
+	if !ok {
+		fmt.Fprintln(os.Stderr, "no oracle for", prop)
+		return 2
+	}
+	f(r, newG(seed), n, single)
+	return r.finish()
+}
+
+var oracles = map[string]func(r *report, g *G, n int, single string){
+	"C15": oracleC15,
+}
+
+func sortedKeys(m map[string]int) []string {
+	var ks []string
+	for k := range m {
+		ks = append(ks, k)
+	}
+	sort.Strings(ks)
+	return ks
+}
+
+// ---------------------------------------------------------------- C15
+
+// refVbLen is MQTT 1.5.5 table 1-1, written from the specification.
+func refVbLen(v uint64) int {
+	switch {
+	case v <= 127:
+		return 1
+	case v <= 16383:
+		return 2
+	case v <= 2097151:
+		return 3
+	default:
+		return 4
+	}
+}
+
+func checkVbValue(r *report, v uint64) {
+	c := "VBENC " + strconv.FormatUint(v, 10)
+	w := mq.VerifVbintWidth(uint(v))
+	buf, ret := mq.VerifVbintFill(uint(v), w, 0)
+	want := refVbLen(v)
+	if w != want || ret != want || len(buf) != want {
+		r.fail("vb-length", c, fmt.Sprintf("width=%d ret=%d want=%d", w, ret, want))
+		return
+	}
+	// seven bits per byte, least significant first, continuation on all but the last
+	var val uint64
+	for i, b := range buf {
+		val |= uint64(b&127) << (7 * uint(i))
+		if (b&128 != 0) != (i < len(buf)-1) {
+			r.fail("vb-continuation", c, hexs(buf))
+			return
+		}
+	}
+	if val != v {
+		r.fail("vb-value", c, hexs(buf))
+		return
+	}
+	got, adv, err := mq.VerifVbintUnmarshal(buf)
+	if err != nil || uint64(got) != v || adv != want {
+		r.fail("vb-mem-decode", c, fmt.Sprintf("%v %d %v", got, adv, err))
+		return
+	}
+	sr := &scriptReader{chunks: []chunk{{bs: append(buf, 0x55)}}}
+	got2, n2, err := mq.VerifVbintReadFrom(sr)
+	if err != nil || uint64(got2) != v || int(n2) != want || sr.got != want {
+		r.fail("vb-stream-decode", c, fmt.Sprintf("%v %d %v", got2, n2, err))
+	}
+}
+
+func checkVbBytes(r *report, bs []byte) {
+	c := "VBDEC " + hexs(bs)
+	v1, _, e1 := mq.VerifVbintUnmarshal(bs)
+	sr := &scriptReader{chunks: []chunk{{bs: append([]byte{}, bs...)}}}
+	v2, n2, e2 := mq.VerifVbintReadFrom(sr)
+	if (e1 == nil) != (e2 == nil) {
+		r.fail("vb-decoders-disagree", c, fmt.Sprintf("mem: %v %v stream: %v %v", v1, e1, v2, e2))
+		return
+	}
+	if e1 == nil && v1 != v2 {
+		r.fail("vb-decoders-disagree", c, fmt.Sprintf("mem: %v stream: %v", v1, v2))
+		return
+	}
+	// independent reading: first byte without continuation within the first four
+	term := -1
+	for i := 0; i < len(bs) && i < 4; i++ {
+		if bs[i]&128 == 0 {
+			term = i
+			break
+		}
+	}
+	if term < 0 && e1 == nil {
+		r.fail("vb-accepts-unterminated", c, fmt.Sprintf("value %v", v1))
+		return
+	}
+	if term >= 0 {
+		var val uint
+		for i := 0; i <= term; i++ {
+			val |= uint(bs[i]&127) << (7 * uint(i))
+		}
+		if e1 != nil || v1 != val || int(n2) != term+1 {
+			r.fail("vb-rejects-or-misreads", c, fmt.Sprintf("want %v got mem %v %v stream %v n=%d", val, v1, e1, v2, n2))
+		}
+	}
+}
+
+func oracleC15(r *report, g *G, n int, single string) {
+	if single != "" {
+		f := splitWS(single)
+		if len(f) == 2 && f[0] == "VBENC" {
+			v, _ := strconv.ParseUint(f[1], 10, 64)
+			if v < 1<<28 {
+				checkVbValue(r, v)
+			}
+		}
+		if len(f) == 2 && (f[0] == "VBDEC" || f[0] == "VBSTR") {
+			checkVbBytes(r, unhex(firstChunk(f[1])))
+		}
+		return
+	}
+	if n == 0 {
+		// all 2^28 values, 16 shards
+		var wg sync.WaitGroup
+		const shards = 16
+		per := uint64(1<<28) / shards
+		for s := uint64(0); s < shards; s++ {
+			wg.Add(1)
+			go func(lo, hi uint64) {
+				defer wg.Done()
+				for v := lo; v < hi; v++ {
+					checkVbValue(r, v)
+				}
+			}(s*per, (s+1)*per)
+		}
+		wg.Wait()
+		r.evalN("value", 1<<28, 1<<28-128)
+		r.mu.Lock()
+		r.dist["exhaustive_values"] = 1
+		r.mu.Unlock()
+	} else {
+		for _, v := range vbBoundaries {
+			for d := -2; d <= 2; d++ {
+				x := int64(v) + int64(d)
+				if x >= 0 && x < 1<<28 {
+					checkVbValue(r, uint64(x))
+					r.eval("boundary", x > 127, "v"+strconv.FormatInt(x, 10))
+				}
+			}
+		}
+		for i := 0; i < n; i++ {
+			var v uint64
+			switch g.pick(4) {
+			case 0:
+				v = uint64(g.pick(128))
+			case 1:
+				v = 128 + uint64(g.pick(16384-128))
+			case 2:
+				v = 16384 + uint64(g.pick(2097152-16384))
+			default:
+				v = 2097152 + uint64(g.pick(268435456-2097152))
+			}
+			checkVbValue(r, v)
+			r.eval("len"+strconv.Itoa(refVbLen(v)), v > 127, "v"+strconv.FormatUint(v, 10))
+		}
+	}
+	r.sample(map[string]interface{}{"value": 268435455, "encoded": hexs(vbEnc(268435455))})
+	// byte strings: all of length <= 2 (quick) / <= 3 (thorough)
+	checkVbBytes(r, nil)
+	for a := 0; a < 256; a++ {
+		checkVbBytes(r, []byte{byte(a)})
+		for b := 0; b < 256; b++ {
+			checkVbBytes(r, []byte{byte(a), byte(b)})
+			if n == 0 {
+				for c := 0; c < 256; c++ {
+					checkVbBytes(r, []byte{byte(a), byte(b), byte(c)})
+				}
+			}
+		}
+	}
+	if n == 0 {
+		r.evalN("bytes<=3", 1+256+65536+16777216, 128+32768+16777216)
+		// all 4-byte strings whose first three bytes carry the continuation bit,
+		// and all-continuation 4-byte prefixes x 256 fifth bytes
+		for a := 128; a < 256; a++ {
+			for b := 128; b < 256; b++ {
+				for c := 128; c < 256; c++ {
+					for d := 0; d < 256; d++ {
+						checkVbBytes(r, []byte{byte(a), byte(b), byte(c), byte(d)})
+					}
+				}
+			}
+		}
+		r.evalN("bytes4-cont3", 128*128*128*256, 128*128*128*256)
+		for i := 0; i < 2000000; i++ {
+			bs := []byte{byte(128 + g.pick(128)), byte(128 + g.pick(128)), byte(128 + g.pick(128)), byte(128 + g.pick(128)), byte(g.pick(256))}
+			checkVbBytes(r, bs)
+		}
+		r.evalN("bytes5-cont4-sampled", 2000000, 0)
+	} else {
+		r.evalN("bytes<=2", 1+256+65536, 128+32768)
+		for i := 0; i < 50000; i++ {
+			l := 3 + g.pick(3)
+			bs := make([]byte, l)
+			for j := range bs {
+				bs[j] = byte(g.pick(256))
+				if j < l-1 || g.chance(50) {
+					bs[j] |= 128
+				}
+			}
+			if g.chance(20) {
+				bs[g.pick(l)] &= 127
+			}
+			checkVbBytes(r, bs)
+			r.eval("bytes3-5", true, hexs(bs))
+		}
+	}
+	r.sample(map[string]interface{}{"bytes": "ffffffff01", "expect": "rejected by both decoders"})
+	// cross-check through the public API
+	for _, v := range vbBoundaries {
+		if v == 0 {
+			continue
+		}
+		p := mq.NewSubscribe()
+		p.SetSubscriptionID(int(v))
+		p.AddFilters(mq.NewTopicFilter("a", 0))
+		q, err := mq.ReadPacket(&scriptReader{chunks: []chunk{{bs: frameOf(p)}}})
+		if err != nil {
+			r.fail("vb-api-roundtrip", "SetSubscriptionID "+strconv.FormatUint(v, 10), err.Error())
+			continue
+		}
+		if got := q.(*mq.Subscribe).SubscriptionID(); got != int(v) {
+			r.fail("vb-api-roundtrip", "SetSubscriptionID "+strconv.FormatUint(v, 10), strconv.Itoa(got))
+		}
+		r.eval("api", true, "api"+strconv.FormatUint(v, 10))
+	}
+}
+
+func splitWS(s string) []string {
+	var out []string
+	cur := ""
+	for _, c := range s {
+		if c == ' ' {
+			if cur != "" {
+				out = append(out, cur)
+			}
+			cur = ""
+		} else {
+			cur += string(c)
+		}
+	}
+	if cur != "" {
+		out = append(out, cur)
+	}
+	return out
+}
+
+func firstChunk(sc string) string {
+	b := []byte{}
+	for _, c := range parseScript(sc).chunks {
+		b = append(b, c.bs...)
+	}
+	return hexs(b)
 }
